@@ -32,6 +32,8 @@ class Comparable(object):
         obj = self.obj
         if isinstance(other, Comparable):
             other = other.obj
+        elif isinstance(other, (list, tuple)):
+            other = Comparable(other).obj
 
         # None < everything else
         if other is None:
@@ -64,6 +66,8 @@ class Comparable(object):
     def __eq__(self, other):
         if isinstance(other, Comparable):
             return self.obj == other.obj
+        if isinstance(other, (list, tuple)):
+            return self.obj == Comparable(other).obj
         return self.obj == other
 
     def __le__(self, other):
